@@ -59,7 +59,7 @@ def gen():
     b = F.fn_body(t, "read_character_property", REL)
     S.get("charprop loop", lambda: must(re.search(r"for\s+\(i,\s*\w+\)\s+in\s+reader\.lines\(\)\.enumerate\(\)", b), "no longer `for (i, line) in reader.lines().enumerate()`"), None)
     S.get("charprop trim", lambda: must(re.search(r"let\s+\w+\s*=\s*\w+\?;\s*let\s+\w+\s*=\s*\w+\.trim\(\);", b), "`let line = line?; let line = line.trim();` not found"), None)
-    m = S.get("charprop skip rule", lambda: must(re.search(r"if\s+\w+\.is_empty\(\)\s*\|\|\s*\w+\.chars\(\)\.next\(\)\.unwrap\(\)\s*==\s*'(.)'\s*\|\|\s*\w+\.chars\(\)\.take\(2\)\.collect::<Vec<_>>\(\)\s*==\s*vec!\['(.)',\s*'(.)'\]\s*\{\s*continue;", b), "skip rule (empty / comment / range line) not recognised").groups(), ("#", "0", "x"))
+    m = S.get("charprop skip rule", lambda: must((re.search(r"if\s+\w+\.is_empty\(\)\s*\|\|\s*\w+\.chars\(\)\.next\(\)\.unwrap\(\)\s*==\s*'(.)'\s*\|\|\s*\w+\.chars\(\)\.take\(2\)\.collect::<Vec<_>>\(\)\s*==\s*vec!\['(.)',\s*'(.)'\]\s*\{\s*continue;", b) or re.search(r"if\s+\w+\.is_empty\(\)\s*\|\|\s*\w+\.starts_with\('(.)'\)\s*\|\|\s*\w+\.starts_with\(\"(.)(.)\"\)\s*\{\s*continue;", b)), "skip rule (empty / comment / range line) not recognised").groups(), ("#", "0", "x"))
     out.append("(* read_character_property: skipped are empty lines, lines starting with this character, and lines starting with this prefix *)\n")
     out.append("Definition charprop_comment : N := %d%%N.\nDefinition charprop_range_prefix : list N := %s.\n" % (ord(m[0]), codes(m[1] + m[2])))
     S.get("charprop tokeniser", lambda: must(re.search(r"let\s+cols:\s*Vec<_>\s*=\s*\w+\.split_whitespace\(\)\.collect\(\);", b), "columns are no longer line.split_whitespace()"), None)
@@ -95,7 +95,7 @@ def gen():
     b = F.inline_calls(t, F.fn_body(t, "read_oov", REL))
     S.get("unk loop", lambda: must(re.search(r"for\s+\(i,\s*\w+\)\s+in\s+reader\.lines\(\)\.enumerate\(\)", b), "no longer `for (i, line) in reader.lines().enumerate()`"), None)
     S.get("unk trim", lambda: must(re.search(r"let\s+\w+\s*=\s*\w+\?;\s*let\s+\w+\s*=\s*\w+\.trim\(\);", b), "`let line = line?; let line = line.trim();` not found"), None)
-    m = S.get("unk skip rule", lambda: must(re.search(r"if\s+\w+\.is_empty\(\)\s*\|\|\s*\w+\.chars\(\)\.next\(\)\.unwrap\(\)\s*==\s*'(.)'\s*\{\s*continue;", b), "skip rule (empty / comment) not recognised").groups(), ("#",))
+    m = S.get("unk skip rule", lambda: must(re.search(r"if\s+\w+\.is_empty\(\)\s*\|\|\s*(?:\w+\.chars\(\)\.next\(\)\.unwrap\(\)\s*==\s*|\w+\.starts_with\()'(.)'\)?\s*\{\s*continue;", b), "skip rule (empty / comment) not recognised").groups(), ("#",))
     out.append("(* read_oov: skipped are empty lines and lines starting with this character *)\nDefinition unk_comment : N := %d%%N.\n" % ord(m[0]))
     m = S.get("unk separator", lambda: must(re.search(r"let\s+cols:\s*Vec<_>\s*=\s*\w+\.split\('(.)'\)\.collect\(\);", b), "columns are no longer line.split(<char>)").groups(), (",",))
     out.append("Definition unk_separator : N := %d%%N.\n" % ord(m[0]))
@@ -111,7 +111,7 @@ def gen():
         ("pos", r"pos_id:\s*grammar\.handle_user_pos\(&cols\[[0-9]+\.\.[0-9]+\],\s*user_pos\)\?"),
         ("left_id range check", r"\w+\.left_id\s+as\s+usize"),
         ("right_id range check", r"\w+\.right_id\s+as\s+usize"),
-        ("push", r"\w+\.get_mut\(&category_type\)"),
+        ("push", r"\w+\.(?:get_mut\(&category_type\)|entry\(category_type\))"),
     ], "read_oov"), None)
     m = S.get("unk POS slice", lambda: must(re.search(r"handle_user_pos\(&cols\[([0-9]+)\.\.([0-9]+)\]", b), "POS slice not recognised").groups(), ("4", "10"))
     out.append("(* POS = cols[from..to] *)\nDefinition unk_pos_from : nat := %s.\nDefinition unk_pos_to : nat := %s.\n" % (m[0], m[1]))
@@ -119,6 +119,7 @@ def gen():
     # `if let Some(l) = m.get_mut(&c) { l.push(x); } else { m.insert(c, vec![x]); }`
     S.get("unk grouping", lambda: must(
         re.search(r"match\s+(\w+)\.get_mut\(&category_type\)\s*\{\s*None\s*=>\s*\{\s*\1\.insert\(category_type,\s*vec!\[(\w+)\]\);\s*\}\s*Some\((\w+)\)\s*=>\s*\{\s*\3\.push\(\2\);\s*\}", b)
+        or re.search(r"\b\w+\.entry\(category_type\)\.(?:or_insert_with\(Vec::new\)|or_default\(\))\.push\(\w+\);", b)
         or re.search(r"if\s+let\s+Some\((\w+)\)\s*=\s*(\w+)\.get_mut\(&category_type\)\s*\{\s*\1\.push\((\w+)\);\s*\}\s*else\s*\{\s*\2\.insert\(category_type,\s*vec!\[\3\]\);\s*\}", b),
         "templates are no longer appended to the list of their category"), None)
     # both readers are fed from files opened in set_up, charDef first
